@@ -388,6 +388,31 @@ def check_map_construction(entries):
                 out.append(("C12:get_type-disagrees-with-mapping", "after .mapping[(%d,%d)] was set to %r the frame decodes as %s, "
                             "expected %s" % (s9, i9, new_t, type(ev).__name__, want_cls)))
                 break
+        # two DALI lines, two driver objects made without a table of their own: what one line learns does not name
+        # types on the other
+        try:
+            from harness import stubs
+            stubs.install()
+            import dali.driver.serial as _ser
+            import dali.driver.hid as _hid
+            pairs = [(cls(uri), cls(uri2)) for cls, uri, uri2 in (
+                (_ser.DriverLubaRs232, "luba232:/dev/verif-line-a", "luba232:/dev/verif-line-b"),
+                (_ser.DriverSCIRS232, "scirs232:/dev/verif-line-a", "scirs232:/dev/verif-line-b"))]
+        except Exception:  # noqa - drivers not constructible here: nothing to compare
+            pairs = []
+        for da, db in pairs:
+            ma, mb = getattr(da, "dev_inst_map", None), getattr(db, "dev_inst_map", None)
+            if ma is None or mb is None:
+                continue
+            s1, i1, t1 = entries[0]
+            ma.add_type(short_address=s1, instance_number=i1, instance_type=t1)
+            q = mb.get_type(short_address=s1, instance_number=i1)
+            ev = _c3.from_frame(_f3.ForwardFrame(24, (s1 << 17) | 0x8000 | (i1 << 10) | 5), dev_inst_map=mb)
+            if q is not None or type(ev).__name__ != "AmbiguousInstanceType":
+                out.append(("C12:drivers-share-one-table", "two %s objects made without dev_inst_map: after add_type(%d,%d,%r) on the "
+                            "first one's table the second one's answers %r and decodes the pair's frame as %s"
+                            % (type(da).__name__, s1, i1, t1, q, type(ev).__name__)))
+            ma.clear()
         # two mappers preset from ONE dict of the caller's; clearing one concerns neither the other nor the dict
         shared = dict(ref)
         m1 = DeviceInstanceTypeMapper(initial=shared)
